@@ -180,9 +180,34 @@ class ElemEval:
                         env[x.id] = v[1][i] if v[0] == 'lst' and len(v[1]) == len(t.elts) else ('unk', src(st.value)[:30])
                 elif isinstance(t, ast.Attribute) and isinstance(t.value, ast.Name) and t.value.id == 'self':
                     self.stores['self.' + t.attr] = v
+                elif isinstance(t, ast.Subscript):
+                    # an in-place store changes the value the base holds: one element of a known list, otherwise everything known about it
+                    b = t.value
+                    while isinstance(b, ast.Subscript):
+                        b = b.value
+                    if isinstance(b, ast.Name):
+                        cur = env.get(b.id)
+                        k = t.slice.value if isinstance(t.slice, ast.Constant) and isinstance(t.slice.value, int) and t.value is b else None
+                        if k is None and t.value is b and not isinstance(t.slice, (ast.Slice, ast.Tuple)):
+                            kv = self.ev(t.slice, env, depth)
+                            k = kv[1] if kv[0] == 'num' and isinstance(kv[1], int) else None
+                        if cur is not None and cur[0] == 'lst' and k is not None and -len(cur[1]) <= k < len(cur[1]):
+                            items = list(cur[1])
+                            items[k] = v
+                            env[b.id] = ('lst', tuple(items))
+                        else:
+                            env[b.id] = ('unk', 'stored into in place: ' + src(st)[:30])
+                    elif isinstance(b, ast.Attribute) and isinstance(b.value, ast.Name) and b.value.id == 'self' and ('self.' + b.attr) in self.stores:
+                        self.stores['self.' + b.attr] = ('unk', 'stored into in place: ' + src(st)[:30])
                 continue
-            if isinstance(st, ast.AugAssign) and isinstance(st.target, ast.Name):
-                env[st.target.id] = ('unk', src(st)[:30])
+            if isinstance(st, ast.AugAssign):
+                b = st.target
+                while isinstance(b, ast.Subscript):
+                    b = b.value
+                if isinstance(b, ast.Name):
+                    env[b.id] = ('unk', src(st)[:30])
+                elif isinstance(b, ast.Attribute) and isinstance(b.value, ast.Name) and b.value.id == 'self' and ('self.' + b.attr) in self.stores:
+                    self.stores['self.' + b.attr] = ('unk', src(st)[:30])
                 continue
             if isinstance(st, ast.Expr) and isinstance(st.value, ast.Call):
                 f = st.value.func
